@@ -1,130 +1,79 @@
-//! Per-property check specifications: which engine, which configurations, how many runs per tier.
+//! Per-property check specifications: engine, configurations, runs per tier, non-triviality rule.
 use crate::common::{run_check, CheckSpec, Config};
-use crate::e2_dag::DagEngine;
 use crate::e1::BuildEngine;
+use crate::e2_dag::DagEngine;
+use crate::e3_fs::FsEngine;
 use crate::e4_state::StateEngine;
 
+const E1_ASSUME: [&str; 4] = [
+  "the from-scratch reference interpreter (Clean) and the ledger derived from task-side / checker-side logs are correct",
+  "task programs are interpreted scripts (<= 8 tasks, <= 9 resources, <= 12 history steps); resources are the simulated families RA/RB kept in pie's ResourceState",
+  "hash iteration order is controlled through the guarded seeded-hasher seam (seed is part of every scenario)",
+  "evidence over sampled scenarios, not proof",
+];
+
+fn c(name: &'static str, quick: u64, thorough: u64) -> Config { Config { name, quick, thorough } }
+
+/// (engine, rule, configs)
+pub fn spec(prop: &str) -> Option<(&'static str, &'static str, Vec<Config>)> {
+  Some(match prop {
+    "C01" => ("e1", "class-W programs x initial worlds x histories of external changes (set/create/delete/overwrite of sources and generated resources, touches) and top-down sessions with arbitrary root sequences; configurations: fault-free (td, td-big), with injected checker errors, with injected crashes; oracle: outputs and world of every returning session = from-scratch build of the current state + complete validation of every reused task. Non-trivial = some returning session both reused and re-executed tasks; distinct by scenario fingerprint.",
+      vec![c("td", 100_000, 4_000_000), c("td-big", 30_000, 1_000_000), c("td-checkerr", 40_000, 1_000_000), c("td-crash", 40_000, 1_000_000)]),
+    "C02" => ("e1", "as C01 plus exact-checker-only programs (minimality clause) and crash / checker-error configurations; oracles: at most one execution per task and session, every re-execution follows an inconsistent verdict on a dependency of the task's latest execution (serial-numbered stamps), validation in creation order with early stop, repeat sessions execute nothing, exact-checker programs execute a subset of the from-scratch build. Non-trivial = some session both reused and re-executed tasks.",
+      vec![c("td", 60_000, 2_000_000), c("td-exact", 60_000, 2_000_000), c("td-crash", 50_000, 1_500_000), c("td-checkerr", 30_000, 1_000_000)]),
+    "C03" => ("e1", "histories of change batches reported completely to bottom-up builds: pure bottom-up, mixed with all-roots top-down sessions, many-tasks-few-resources programs with bursts of changes, and mixed with arbitrary top-down sessions in between (bu-mixed: staleness left by a partial top-down session is the recorded finding); oracles: probing all known tasks afterwards executes nothing and returns from-scratch outputs, world = from-scratch, every inconsistent verdict during the build leads to an execution, no cached reuse while something scheduled is reachable. Non-trivial = a bottom-up session both reused and re-executed tasks.",
+      vec![c("bu-pure", 60_000, 2_000_000), c("bu-allroots", 60_000, 2_000_000), c("bu-big", 80_000, 2_500_000), c("bu-mixed", 40_000, 1_500_000)]),
+    "C04" => ("e1", "as C03 (large scheduled sets first); oracles: at most one execution per task and build, every execution of a previously completed task follows an inconsistent / erroneous verdict on one of its own recorded dependencies in that build, no task executes while a scheduled task it transitively requires (recorded edges) still waits. Non-trivial = a bottom-up session both reused and re-executed tasks.",
+      vec![c("bu-big", 100_000, 3_000_000), c("bu-pure", 50_000, 2_000_000), c("bu-allroots", 50_000, 2_000_000), c("bu-big-allroots", 50_000, 1_500_000)]),
+    "C05" => ("e1", "class-X programs: a well-formed program plus one injected read of a generated resource without requiring its writer, or one injected write of a resource some other task reads, at any task / depth, optionally guarded by a value-dependent condition; top-down and mixed bottom-up histories; online monitors on the ledger: a read / write that returns must not leave a reader without a require path to the writer; write-side aborts through Context::write happen before the resource is opened; after a returning build every fresh reader reaches the writer. Class-W runs as negative control. Non-trivial = a diagnostic abort happened or a session both reused and re-executed.",
+      vec![c("x-hidden-td", 80_000, 2_500_000), c("x-hidden-bu", 60_000, 2_000_000), c("td", 20_000, 500_000)]),
+    "C06" => ("e1", "class-X programs with a second writer of a generated resource (through write and through create_writer + written_to), both orders, split across sessions and build modes; class-W programs with writers re-executed through every route, also after crashes; monitors: a write that returns while another task is the recorded writer is a missed detection; at most one writer per resource after a returning build; aborts through Context::write before modification; a writer's own earlier write is never reported. Non-trivial as C05.",
+      vec![c("x-overlap-td", 80_000, 2_500_000), c("x-overlap-bu", 60_000, 2_000_000), c("bu-allroots", 20_000, 500_000), c("bu-crash", 40_000, 1_000_000), c("td-crash", 20_000, 500_000)]),
+    "C07" => ("e1", "class-X programs with an injected back-require closing a cycle of length 1..n, possibly value-dependent and arising in a later session; monitors: a require of a task on the execution stack must not return, must be diagnosed as a cyclic dependency, no task is entered a second time, depth / execution-count guards never fire. Non-trivial as C05.",
+      vec![c("x-cycle-td", 80_000, 2_500_000), c("x-cycle-bu", 60_000, 2_000_000)]),
+    "C08" => ("e1", "class-W programs whose tasks change their dependency sets with resource values, over top-down, mixed and crash-injecting histories; class-M programs (a second dependency on one target with another checker: recorded finding); oracle: after every returning session the guarded store dump equals the ledger of latest executions (targets, kinds, checker, stamp serial, order, outputs, no reserved edges on completed tasks, symmetric adjacency) and no check is ever made against a stamp of an earlier execution. Non-trivial = some session both reused and re-executed tasks.",
+      vec![c("td", 60_000, 2_000_000), c("bu-mixed", 60_000, 2_000_000), c("td-crash", 40_000, 1_000_000), c("bu-crash", 40_000, 1_000_000), c("m-td", 20_000, 500_000), c("m-bu", 20_000, 500_000)]),
+    "C09" => ("e1", "programs mixing exact, parity, existence-only, version (logical clock), threshold and always-consistent resource checkers and six output checkers (five built-in ones through a delegating instrumented checker); histories with changes a coarse checker must ignore and with writes by the task itself; oracles: stamp route and timing (reader handed to the task, after write_fn, from the returned output), verdict relation of every output check, consistent never re-executes, inconsistent always does. Non-trivial = a session both reused and re-executed tasks and a coarse checker ignored a real value change.",
+      vec![c("td", 60_000, 2_000_000), c("bu-allroots", 50_000, 1_500_000), c("td-big", 30_000, 1_000_000), c("m-td", 30_000, 1_000_000), c("bu-big", 30_000, 1_000_000)]),
+    "C10" => ("e2", "seeded operation histories (add_node / add_edge / remove_edge / remove_outgoing_edges_of_node / remove_node, <= 12 live nodes, <= 60 (long: 120) operations, biased to back-edges, cycle-closing edges, re-insertions and dead handles) over DAG<u32,u64> with a seeded hasher; after every operation: rank bijection onto 1..n, ascending edges, exact add_edge verdict vs DFS reference, rollback of rejected insertions. Non-trivial = history with an order-changing insertion (rank(dst) < rank(src)) and a removal.",
+      vec![c("short", 150_000, 2_500_000), c("long", 50_000, 1_200_000)]),
+    "C11" => ("e2", "same histories as C10; after every operation every public query for every ordered pair of live and dead handles is compared with the reference graph (first-insertion order and data, symmetric adjacency, descendants exact / once / ascending, transitive reachability, topo_cmp, removal results). Non-trivial as C10.",
+      vec![c("short", 150_000, 2_500_000), c("long", 50_000, 1_200_000)]),
+    "C13" => ("e3", "seeded histories of one path through {absent, file of sizes 0..65537 around the 8 KiB buffer with pattern / uniform / zero-padded content, directory with name sets whose concatenations coincide} with explicit modification times (far past .. far future, backwards jumps); stamps through path / fresh reader / just-used writer (with delete and rewrite faults before stamping) must agree; checks of remembered stamps must be inconsistent exactly when the documented aspect differs; readers stay fresh after stamping; write creates / truncates / refuses directories. Non-trivial = a stamped state was checked against a later state after >= 2 modifications.",
+      vec![c("fs", 20_000, 600_000)]),
+    "C14" => ("e4", "seeded histories over three map key types (two sharing a value type) and two unrelated resource types in one Pie: direct edits, reads, writer operations (insert / get / get_mut / entry), stamps by three routes, checks of remembered stamps, an incremental task reading and writing through the context, and raw typed state accesses (get / get_mut / set / get_boxed(_mut) / set_boxed / get_or_set_default(_mut)) with matching and non-matching state types; after every operation the returned value and the complete observable state of every resource type equal the model. Non-trivial = >= 3 resource types hold state and a remembered stamp was checked.",
+      vec![c("mix", 300_000, 10_000_000)]),
+    "C15" => ("e1", "class-W programs over task families T<0>, T<1>, Box<T<2>>, Rc<T<3>>, Arc<T<4>> and the wrappers Box<T<0>>, Rc<T<0>> around the very type of family 0, and resource families R<0>, R<1>, all with coinciding ids, hashes and Debug text; every scenario starts with direct trait-object equality probes over all key pairs; oracles: from-scratch outputs (scripts differ per key), one node per key in the store dump, dependencies attached to the right node. Non-trivial = some session both reused and re-executed tasks.",
+      vec![c("id-td", 80_000, 2_500_000), c("id-bu", 60_000, 2_000_000), c("td", 30_000, 1_000_000)]),
+    "C16" => ("e1", "every scenario is replayed under perturbations that must not matter: another hash seed, after unrelated instances were built and dropped on the same thread, in a fresh thread, with OS-random hash seeds; the complete unified event log (task-side, checker-side, resource-side and tracker events incl. stamps) must be identical. Non-trivial = some session both reused and re-executed tasks.",
+      vec![c("td-replay", 20_000, 700_000), c("bu-replay", 20_000, 700_000), c("bu-mixed-replay", 10_000, 300_000), c("bu-big-replay", 60_000, 1_500_000)]),
+    "C17" => ("e1", "tracker = Composite(Rec, Composite(EventTracker, Rec)) in every scenario (top-down, bottom-up, checker errors, diagnosed violations): both recorders identical, strict stack nesting, execute / check / require events match the task-side and checker-side logs, EventTracker contents, indices and every helper x event x key (incl. a foreign key) equal a reference scan. Non-trivial = some session both reused and re-executed tasks.",
+      vec![c("td", 50_000, 2_000_000), c("bu-pure", 50_000, 2_000_000), c("td-checkerr", 30_000, 1_000_000), c("bu-checkerr", 30_000, 1_000_000), c("bu-big", 30_000, 1_000_000), c("x-any-td", 20_000, 500_000)]),
+    "C18" => ("e1", "class-W scenarios in which chosen `check` calls (k-th call of a session, or every check of a resource) return an error, top-down and bottom-up; oracles: the owning task is re-executed / scheduled and never reused, every injected error appears exactly once and in order in Session::dependency_check_errors, the build does not abort, results still equal the from-scratch build. Non-trivial = at least one injected checker error fired.",
+      vec![c("td-checkerr", 80_000, 2_500_000), c("bu-checkerr", 80_000, 2_500_000)]),
+    "C19" => ("e1", "class-W, class-X and class-V scenarios with aborts: injected panics at seeded ticks (any operation of any task at any depth, inside write functions and checker calls) and diagnosed violations; the instance is used again: later top-down sessions must return from-scratch results, abort only for an existing violation or with a listed stale-edge signature, never with an internal error; the world after an abort holds exactly the writes that happened. Non-trivial = a crash fired and a later top-down session returned.",
+      vec![c("td-crash", 80_000, 3_000_000), c("bu-crash", 50_000, 2_000_000), c("x-any-td", 60_000, 2_000_000), c("x-any-crash", 40_000, 1_000_000), c("v-td-crash", 40_000, 1_000_000)]),
+    "C20" => ("e1", "class-W programs (any diagnostic abort is a violation) and class-V programs (two or three well-formed sub-programs with different role assignments selected by a mode resource; every state is violation-free): a diagnostic abort must exist in a from-scratch build of all known tasks, else it must be explained by recorded dependencies of tasks not yet validated in the session (stale-edge signature: listed finding or violation); unexplained aborts and internal errors are violations. Non-trivial = a diagnostic abort happened or a session both reused and re-executed.",
+      vec![c("v-td", 80_000, 2_500_000), c("v-bu", 40_000, 1_500_000), c("td", 40_000, 1_000_000), c("bu-mixed", 40_000, 1_000_000), c("bu-big", 20_000, 500_000), c("v-bu-big", 60_000, 1_500_000), c("v-td-crash", 40_000, 1_000_000)]),
+    _ => return None,
+  })
+}
+
 pub fn check(prop: &str, tier: &str) -> i32 {
-  match prop {
-    "C10" => run_check(&DagEngine, &CheckSpec {
-      prop: "C10",
-      rule: "seeded operation histories (add_node/add_edge/remove_edge/remove_outgoing_edges_of_node/remove_node, <= 12 live nodes, <= 60 (config long: 120) ops, biased to back-edges, cycle-closing edges, re-insertions and dead handles) over DAG<u32,u64> with a seeded hasher; after every op: rank bijection onto 1..n, ascending edges, exact add_edge verdict vs DFS reference, rollback of rejected insertions. Non-trivial = history with >= 1 order-changing insertion (rank(dst) < rank(src)) and >= 1 removal; distinct by operation-sequence fingerprint.",
-      assumptions: vec!["reference graph (ordered adjacency lists + DFS) is correct", "hash order is controlled through the guarded seeded-hasher seam"],
-      configs: vec![Config { name: "short", quick: 60_000, thorough: 1_500_000 }, Config { name: "long", quick: 20_000, thorough: 800_000 }],
-    }, tier),
-    "C11" => run_check(&DagEngine, &CheckSpec {
-      prop: "C11",
-      rule: "same histories as C10; after every op every public query for every ordered pair of live and dead handles is compared with the reference graph (first-insertion order and data, symmetric adjacency, descendants exact/once/ascending, transitive reachability, topo_cmp, removal results). Non-trivial = history with >= 1 order-changing insertion and >= 1 removal; distinct by operation-sequence fingerprint.",
-      assumptions: vec!["reference graph (ordered adjacency lists + DFS) is correct", "hash order is controlled through the guarded seeded-hasher seam"],
-      configs: vec![Config { name: "short", quick: 60_000, thorough: 1_500_000 }, Config { name: "long", quick: 20_000, thorough: 800_000 }],
-    }, tier),
-    "C01" => run_check(&BuildEngine, &CheckSpec {
-      prop: "C01",
-      rule: "class-W programs x initial worlds x histories of external changes and top-down sessions; non-trivial = some session both reused and re-executed tasks",
-      assumptions: vec!["from-scratch model (Clean) is correct"],
-      configs: vec![Config { name: "td", quick: 100_000, thorough: 4_000_000 }, Config { name: "td-big", quick: 30_000, thorough: 1_000_000 }, Config { name: "td-checkerr", quick: 40_000, thorough: 1_000_000 }, Config { name: "td-crash", quick: 40_000, thorough: 1_000_000 }],
-    }, tier),
-    "C02" => run_check(&BuildEngine, &CheckSpec {
-      prop: "C02",
-      rule: "as C01; plus exact-checker programs for the minimality clause",
-      assumptions: vec!["from-scratch model (Clean) is correct"],
-      configs: vec![Config { name: "td", quick: 60_000, thorough: 2_000_000 }, Config { name: "td-exact", quick: 60_000, thorough: 2_000_000 }, Config { name: "td-crash", quick: 50_000, thorough: 1_500_000 }, Config { name: "td-checkerr", quick: 30_000, thorough: 1_000_000 }],
-    }, tier),
-    "C03" => run_check(&BuildEngine, &CheckSpec {
-      prop: "C03",
-      rule: "bottom-up mixes",
-      assumptions: vec!["from-scratch model (Clean) is correct"],
-      configs: vec![Config { name: "bu-pure", quick: 60_000, thorough: 2_000_000 }, Config { name: "bu-allroots", quick: 60_000, thorough: 2_000_000 }, Config { name: "bu-big", quick: 80_000, thorough: 2_500_000 }],
-    }, tier),
-    "C04" => run_check(&BuildEngine, &CheckSpec {
-      prop: "C04",
-      rule: "bottom-up mixes",
-      assumptions: vec!["from-scratch model (Clean) is correct"],
-      configs: vec![Config { name: "bu-big", quick: 100_000, thorough: 3_000_000 }, Config { name: "bu-pure", quick: 50_000, thorough: 2_000_000 }, Config { name: "bu-allroots", quick: 50_000, thorough: 2_000_000 }, Config { name: "bu-big-allroots", quick: 50_000, thorough: 1_500_000 }],
-    }, tier),
-    "C17" => run_check(&BuildEngine, &CheckSpec {
-      prop: "C17",
-      rule: "tracker stream",
-      assumptions: vec!["task-side and checker-side logs are the ground truth"],
-      configs: vec![Config { name: "td", quick: 50_000, thorough: 2_000_000 }, Config { name: "bu-pure", quick: 50_000, thorough: 2_000_000 }, Config { name: "td-checkerr", quick: 30_000, thorough: 1_000_000 }, Config { name: "bu-checkerr", quick: 30_000, thorough: 1_000_000 }, Config { name: "bu-big", quick: 30_000, thorough: 1_000_000 }, Config { name: "x-any-td", quick: 20_000, thorough: 500_000 }],
-    }, tier),
-    "C16" => run_check(&BuildEngine, &CheckSpec {
-      prop: "C16",
-      rule: "replays",
-      assumptions: vec![],
-      configs: vec![Config { name: "td-replay", quick: 20_000, thorough: 700_000 }, Config { name: "bu-replay", quick: 20_000, thorough: 700_000 }, Config { name: "bu-mixed-replay", quick: 10_000, thorough: 300_000 }, Config { name: "bu-big-replay", quick: 60_000, thorough: 1_500_000 }],
-    }, tier),
-    "C19" => run_check(&BuildEngine, &CheckSpec {
-      prop: "C19",
-      rule: "crash faults",
-      assumptions: vec![],
-      configs: vec![Config { name: "td-crash", quick: 80_000, thorough: 3_000_000 }, Config { name: "bu-crash", quick: 50_000, thorough: 2_000_000 }, Config { name: "x-any-td", quick: 60_000, thorough: 2_000_000 }, Config { name: "x-any-crash", quick: 40_000, thorough: 1_000_000 }, Config { name: "v-td-crash", quick: 40_000, thorough: 1_000_000 }],
-    }, tier),
-    "C18" => run_check(&BuildEngine, &CheckSpec {
-      prop: "C18",
-      rule: "check errors",
-      assumptions: vec![],
-      configs: vec![Config { name: "td-checkerr", quick: 80_000, thorough: 2_500_000 }, Config { name: "bu-checkerr", quick: 80_000, thorough: 2_500_000 }],
-    }, tier),
-    "C05" => run_check(&BuildEngine, &CheckSpec {
-      prop: "C05", rule: "class X hidden", assumptions: vec![],
-      configs: vec![Config { name: "x-hidden-td", quick: 80_000, thorough: 2_500_000 }, Config { name: "x-hidden-bu", quick: 60_000, thorough: 2_000_000 }, Config { name: "td", quick: 20_000, thorough: 500_000 }],
-    }, tier),
-    "C06" => run_check(&BuildEngine, &CheckSpec {
-      prop: "C06", rule: "class X overlap", assumptions: vec![],
-      configs: vec![Config { name: "x-overlap-td", quick: 80_000, thorough: 2_500_000 }, Config { name: "x-overlap-bu", quick: 60_000, thorough: 2_000_000 }, Config { name: "bu-allroots", quick: 20_000, thorough: 500_000 }, Config { name: "bu-crash", quick: 40_000, thorough: 1_000_000 }, Config { name: "td-crash", quick: 20_000, thorough: 500_000 }],
-    }, tier),
-    "C07" => run_check(&BuildEngine, &CheckSpec {
-      prop: "C07", rule: "class X cycle", assumptions: vec![],
-      configs: vec![Config { name: "x-cycle-td", quick: 80_000, thorough: 2_500_000 }, Config { name: "x-cycle-bu", quick: 60_000, thorough: 2_000_000 }],
-    }, tier),
-    "C08" => run_check(&BuildEngine, &CheckSpec {
-      prop: "C08", rule: "store dump vs ledger", assumptions: vec![],
-      configs: vec![Config { name: "td", quick: 60_000, thorough: 2_000_000 }, Config { name: "bu-mixed", quick: 60_000, thorough: 2_000_000 }, Config { name: "td-crash", quick: 40_000, thorough: 1_000_000 }, Config { name: "bu-crash", quick: 40_000, thorough: 1_000_000 }, Config { name: "m-td", quick: 20_000, thorough: 500_000 }, Config { name: "m-bu", quick: 20_000, thorough: 500_000 }],
-    }, tier),
-    "C20" => run_check(&BuildEngine, &CheckSpec {
-      prop: "C20", rule: "class W never aborts; class V aborts judged", assumptions: vec![],
-      configs: vec![Config { name: "v-td", quick: 80_000, thorough: 2_500_000 }, Config { name: "v-bu", quick: 40_000, thorough: 1_500_000 }, Config { name: "td", quick: 40_000, thorough: 1_000_000 }, Config { name: "bu-mixed", quick: 40_000, thorough: 1_000_000 }, Config { name: "bu-big", quick: 20_000, thorough: 500_000 }, Config { name: "v-bu-big", quick: 60_000, thorough: 1_500_000 }, Config { name: "v-td-crash", quick: 40_000, thorough: 1_000_000 }],
-    }, tier),
-    "C09" => run_check(&BuildEngine, &CheckSpec {
-      prop: "C09", rule: "checker mixes", assumptions: vec![],
-      configs: vec![Config { name: "td", quick: 60_000, thorough: 2_000_000 }, Config { name: "bu-allroots", quick: 50_000, thorough: 1_500_000 }, Config { name: "td-big", quick: 30_000, thorough: 1_000_000 }, Config { name: "m-td", quick: 30_000, thorough: 1_000_000 }, Config { name: "bu-big", quick: 30_000, thorough: 1_000_000 }],
-    }, tier),
-    "C15" => run_check(&BuildEngine, &CheckSpec {
-      prop: "C15", rule: "identity", assumptions: vec![],
-      configs: vec![Config { name: "id-td", quick: 80_000, thorough: 2_500_000 }, Config { name: "id-bu", quick: 60_000, thorough: 2_000_000 }, Config { name: "td", quick: 30_000, thorough: 1_000_000 }],
-    }, tier),
-    "C14" => run_check(&StateEngine, &CheckSpec {
-      prop: "C14", rule: "state histories", assumptions: vec![],
-      configs: vec![Config { name: "mix", quick: 300_000, thorough: 10_000_000 }],
-    }, tier),
-    _ => { eprintln!("no check for property {prop}"); 2 }
+  let Some((engine, rule, configs)) = spec(prop) else { eprintln!("no check for property {prop}"); return 2; };
+  let prop_static: &'static str = Box::leak(prop.to_string().into_boxed_str());
+  match engine {
+    "e1" => run_check(&BuildEngine, &CheckSpec { prop: prop_static, rule, assumptions: E1_ASSUME.to_vec(), configs }, tier),
+    "e2" => run_check(&DagEngine, &CheckSpec { prop: prop_static, rule, assumptions: vec!["the reference graph (ordered adjacency lists + DFS) is correct", "hash order is controlled through the guarded seeded-hasher seam", "<= 12 live nodes, <= 120 operations per history; evidence over sampled histories, not proof"], configs }, tier),
+    "e3" => run_check(&FsEngine, &CheckSpec { prop: prop_static, rule, assumptions: vec!["runs on the real kernel filesystem of this machine (tmpfs under /dev/shm, else the temp dir)", "SHA-256 collisions are ignored", "kernel directory iteration order is not controlled: only 'untouched' and 'different name set' are claimed for directories"], configs }, tier),
+    _ => run_check(&StateEngine, &CheckSpec { prop: prop_static, rule, assumptions: vec!["the map-of-maps reference model is correct", "evidence over sampled histories, not proof"], configs }, tier),
   }
 }
 
 pub fn list() {
-  for p in ["C10", "C11"] { println!("{p}"); }
+  for i in 1..=20 { let p = format!("C{i:02}"); if spec(&p).is_some() { println!("{p}"); } }
 }
 
 pub fn configs_of(prop: &str) -> Vec<&'static str> {
-  match prop {
-    "C01" => vec!["td", "td-big", "td-checkerr", "td-crash"],
-    "C02" => vec!["td", "td-exact", "td-crash", "td-checkerr"],
-    "C03" => vec!["bu-pure", "bu-allroots", "bu-big"],
-    "C04" => vec!["bu-big", "bu-pure", "bu-allroots", "bu-big-allroots"],
-    "C10" | "C11" => vec!["short", "long"],
-    "C09" => vec!["td", "bu-allroots", "td-big", "m-td", "bu-big"],
-    "C15" => vec!["id-td", "id-bu", "td"],
-    "C14" => vec!["mix"],
-    "C17" => vec!["td", "bu-pure", "td-checkerr", "bu-checkerr", "bu-big", "x-any-td"],
-    "C20" => vec!["v-td", "v-bu", "td", "bu-mixed", "bu-big", "v-bu-big", "v-td-crash"],
-    "C08" => vec!["td", "bu-mixed", "td-crash", "bu-crash", "m-td", "m-bu"],
-    "C05" => vec!["x-hidden-td", "x-hidden-bu", "td"],
-    "C06" => vec!["x-overlap-td", "x-overlap-bu", "bu-allroots", "bu-crash", "td-crash"],
-    "C07" => vec!["x-cycle-td", "x-cycle-bu"],
-    "C18" => vec!["td-checkerr", "bu-checkerr"],
-    "C19" => vec!["td-crash", "bu-crash", "x-any-td", "x-any-crash", "v-td-crash"],
-    "C16" => vec!["td-replay", "bu-replay", "bu-mixed-replay", "bu-big-replay"],
-    _ => vec![],
-  }
+  spec(prop).map(|s| s.2.iter().map(|c| c.name).collect()).unwrap_or_default()
 }
